@@ -463,7 +463,18 @@ def extract_py_rendering(repo):
     """Facts about QSerialization / CombinedExpressionSerialization.serialize_to_python that the
     Lean printer model is parameterised by."""
     tree = ast.parse(_src(repo, 'django_evolution/serialization.py'))
-    out = {'q_single_child_full': False, 'comb_operators': [], 'comb_methods': [], 'comb_parens': False}
+    out = {'q_single_child_full': False, 'comb_operators': [], 'comb_methods': [], 'comb_parens': False,
+           'keep_submodules': False}
+    dcls = _find_class(tree, 'DeconstructedSerialization')
+    dfn = _find_func(dcls, 'serialize_to_python')
+    for n in ast.walk(dfn):
+        # cls_path[len('django.db.models.'):]
+        if isinstance(n, ast.Subscript) and isinstance(n.value, ast.Name) and n.value.id == 'cls_path' and \
+                isinstance(n.slice, ast.Slice) and n.slice.upper is None and isinstance(n.slice.lower, ast.Call) and \
+                isinstance(n.slice.lower.func, ast.Name) and n.slice.lower.func.id == 'len' and \
+                len(n.slice.lower.args) == 1 and isinstance(n.slice.lower.args[0], ast.Constant) and \
+                n.slice.lower.args[0].value == 'django.db.models.':
+            out['keep_submodules'] = True
     qcls = _find_class(tree, 'QSerialization')
     fn = _find_func(qcls, 'serialize_to_python')
     for n in ast.walk(fn):
@@ -552,6 +563,8 @@ def regenerate(repo, outdir):
         '(%s, %s)' % (lean_str(k), lean_str(v)) for k, v in pyr['comb_operators']))
     parts.append('def combMethods : List (String × String) := ' + lean_list(
         '(%s, %s)' % (lean_str(k), lean_str(v)) for k, v in pyr['comb_methods']))
+    parts.append('/-- DeconstructedSerialization keeps the sub-module path below django.db.models in the written name -/')
+    parts.append('def keepSubmodules : Bool := ' + ('true' if pyr['keep_submodules'] else 'false'))
     parts.append('/-- both operands of a CombinedExpression are parenthesised when they are CombinedExpressions -/')
     parts.append('def combParens : Bool := ' + ('true' if pyr['comb_parens'] else 'false'))
     titer = extract_together_iteration(repo)
